@@ -94,11 +94,11 @@ func runC04(c *Ctx) {
 					vt := db.Of(e.Results[0], e.Instr)
 					if et.Is("nil") {
 						_, ok := ana.Match("obj(makeslice<[]uint8>(len(p1), len(p1)), maybe(store(iaddr(self, "+idx+"), "+elem+")))", vt)
-						r.Check(ok && mustPass(decodeFn, e.Instr.Block(), []ana.Edge{{From: l.Header, To: l.Exit}}), "C04.charset.decode-values", c.ipos(e.Instr), "success: dst[i] = decMap[src[i]] for every i, len(dst) = len(src): %s", short(vt.String(), 200))
+						r.Check(ok && exitMustPass(decodeFn, e, []ana.Edge{{From: l.Header, To: l.Exit}}), "C04.charset.decode-values", c.ipos(e.Instr), "success: dst[i] = decMap[src[i]] for every i, len(dst) = len(src): %s", short(vt.String(), 200))
 					} else {
 						es := edgesMatching(db, "bin<==>("+elem+", 255)")
 						_, ok := ana.Match("slice(_, 0, "+idx+")", vt)
-						r.Check(mustPass(decodeFn, e.Instr.Block(), plainEdges(es)) && ok, "C04.charset.decode-reject", c.ipos(e.Instr), "error only when the table yields the sentinel 0xFF; returns the prefix decoded so far (its length is the error offset)")
+						r.Check(exitMustPass(decodeFn, e, plainEdges(es)) && ok, "C04.charset.decode-reject", c.ipos(e.Instr), "error only when the table yields the sentinel 0xFF; returns the prefix decoded so far (its length is the error offset)")
 					}
 				}
 			}
